@@ -212,6 +212,38 @@ func (e *specEnv) callExpr(n *ECall, hint types.Type) sv {
 			sfail("lastbytes: no recorded []byte argument %s of %s (is it called in this function?)", ii.Val, id.Name)
 		}
 		return sv{Val: Val{t: e.st.get(u, k), typ: types.Typ[types.String]}}
+	case "calledwith":
+		// calledwith(cb, x): the callback parameter cb has been called with first argument x
+		argn(2)
+		id, ok := n.Args[0].(*EIdent)
+		if !ok {
+			sfail("calledwith needs a callback name")
+		}
+		var kk string
+		for _, k := range sortedKeys(u.keySort) {
+			if k == "CalledWith."+id.Name {
+				kk = k
+			}
+		}
+		if kk == "" {
+			// not called anywhere (yet): the key type comes from the callback's signature
+			if e.fr == nil {
+				sfail("calledwith is only available in function contracts")
+			}
+			for _, p := range e.fr.fn.Params {
+				if p.Name() == id.Name {
+					if sg, ok := p.Type().Underlying().(*types.Signature); ok && sg.Params().Len() > 0 {
+						kk = u.regKey("CalledWith."+id.Name, "(Array "+u.sortOf(sg.Params().At(0).Type())+" Bool)")
+						u.argKeyType[kk] = sg.Params().At(0).Type()
+					}
+				}
+			}
+			if kk == "" {
+				sfail("calledwith: %s is not a callback parameter", id.Name)
+			}
+		}
+		x := e.eval(n.Args[1], u.argKeyType[kk])
+		return sv{Val: Val{t: "(select " + e.st.get(u, kk) + " " + e.term(x, u.argKeyType[kk]) + ")", typ: tBool}}
 	case "ncalls", "lastres", "lastarg":
 		// ghost call record of the function under verification (see trackedCall)
 		if len(n.Args) < 1 {
@@ -223,8 +255,8 @@ func (e *specEnv) callExpr(n *ECall, hint types.Type) sv {
 		}
 		switch n.Fun {
 		case "ncalls":
-			k := u.regKey("Calls."+id.Name, "Int")
-			return sv{Val: Val{t: "(- " + e.st.get(u, k) + " " + e.old.get(u, k) + ")", typ: tInt}}
+			k := u.regKey("Calls."+id.Name, u.mode.idxSort())
+			return sv{Val: Val{t: u.idxSub(e.st.get(u, k), e.old.get(u, k)), typ: tInt}}
 		case "lastres":
 			k := u.regKey("Res."+id.Name, "Ifc")
 			return sv{Val: Val{t: e.st.get(u, k), typ: types.Universe.Lookup("error").Type()}}
@@ -340,10 +372,11 @@ func (e *specEnv) callExpr(n *ECall, hint types.Type) sv {
 		if k < 1 || k > len(calls) {
 			sfail("callarg: function makes %d call(s) to %s, call %d requested", len(calls), id.Name, k)
 		}
-		if i < 0 || i >= len(calls[k-1]) {
-			sfail("callarg: call has %d argument(s)", len(calls[k-1]))
+		ord := e.fr.callOrder(id.Name, len(calls))
+		if i < 0 || i >= len(calls[ord[k-1]]) {
+			sfail("callarg: call has %d argument(s)", len(calls[ord[k-1]]))
 		}
-		return sv{Val: calls[k-1][i]}
+		return sv{Val: calls[ord[k-1]][i]}
 	}
 	if n.Fun == "callres" {
 		// callres(Name, k, i): i-th result of the k-th call (1-based, in program order) to a function named Name
@@ -363,7 +396,7 @@ func (e *specEnv) callExpr(n *ECall, hint types.Type) sv {
 		if k < 1 || k > len(calls) {
 			sfail("callres: function makes %d call(s) to %s, call %d requested", len(calls), id.Name, k)
 		}
-		r := calls[k-1]
+		r := calls[e.fr.callOrder(id.Name, len(calls))[k-1]]
 		if r.tup != nil {
 			if i < 0 || i >= len(r.tup) {
 				sfail("callres: call has %d result(s)", len(r.tup))
